@@ -5,24 +5,24 @@
   Part 2: the liveness-event queue in every reachable state (one event per rollapp, events and
           records agree, events on the grid and — with consecutive blocks — in the future).
   Part 3: the slash itself (no proposer: nothing; real proposer: exact amount and dishonor).
-  Part 4: an accepted update restarts the clock and honours the proposer.
+  Part 4: an accepted update restarts the clock and honours the proposer; a proposer change restarts
+          the clock; a fork resets it and removes the event.
   Part 5: the schedule: which block ends slash, one block, any number of idle blocks; an active
           rollapp is never slashed.
 
   Hypotheses that appear below and why:
   * `1 ≤ p.lsInterval` — enforced by parameter validation (with interval 0 the Go function divides by 0).
-  * `BlocksOk ops` / `… = some false` — hub heights are consecutive (assumption A-height): the model's
-    `run` accepts arbitrary op lists, including two `begin_` without an `end_`, which would skip a
-    block end; `event_in_future_needs_consecutive_blocks` shows the hypothesis is needed.
-  * `Uniq s a ra` — the proposer `a` of `ra` proposes for no other rollapp.  Only needed for
-    statements about the proposer's *record* across a whole block end (another rollapp's event
-    could otherwise slash the same address in the same block end).  It holds in reachable states
-    (a sequencer record names one rollapp; proposers are chosen among the rollapp's own sequencers)
-    but is a hypothesis here; it is preserved by block processing (`IdleInv`).
+  * `BlocksOk ops` / `ops.foldl phaseStep (some false) = some false` — hub heights are consecutive
+    (assumption A-height): the model's `run` accepts arbitrary op lists, including two `begin_` without
+    an `end_`, which would skip a block end; `event_in_future_needs_consecutive_blocks` shows the
+    hypothesis is needed.  The second form says in addition that the state is between blocks.
+  No other hypotheses: that the proposer of a rollapp proposes for no other rollapp (needed so that
+  another rollapp's event in the same block end cannot touch the same bond) is itself proved for all
+  reachable states (`proposer_is_own_sequencer`, `proposes_for_one_rollapp`).
 -/
 import DymVerif.Lemmas.CoreLiveness
 import DymVerif.Lemmas.GenEqArith
-import DymVerif.Lemmas.CoreLevEnd
+import DymVerif.Lemmas.CoreLevFork
 namespace DymVerif.C08
 open DymVerif DymVerif.Core
 
@@ -125,6 +125,25 @@ theorem event_in_future_after_end (p : Params) (hI : 1 ≤ p.lsInterval) (ops : 
   show r.evH = 0 ∨ (endBlock (run p ops) f).h < r.evH
   exact (hf.ev r hr).imp id (fun h => by omega)
 
+/-- between blocks (with consecutive blocks) every scheduled event sits *exactly* at the next slash
+    height of its rollapp: the least `cdStart + N + k·I` above the current height -/
+theorem event_exactly_at_next_slash_height (p : Params) (hI : 1 ≤ p.lsInterval) (ops : List Op)
+    (hph : ops.foldl phaseStep (some false) = some false) :
+    ∀ r ∈ (run p ops).ras, r.evH = 0 ∨ r.evH = nextSlashHeight p.lsBlocks p.lsInterval (run p ops).h r.cdStart :=
+  run_exact_between p hI ops hph
+
+/-- proposer and successor of every rollapp are sequencers of that very rollapp (and sequencer
+    addresses are unique) … -/
+theorem proposer_is_own_sequencer (p : Params) (ops : List Op) (id : Nat) (r : Rollapp) (a : Addr)
+    (hg : getRa (run p ops) id = some r) (ha : r.proposer = some a ∨ r.successor = some a) :
+    ∃ q, getSeq (run p ops) a = some q ∧ q.rollapp = id := (run_own p ops).own id r a hg ha
+
+/-- … hence an address proposes for at most one rollapp -/
+theorem proposes_for_one_rollapp (p : Params) (ops : List Op) (id id' : Nat) (r r' : Rollapp) (a : Addr)
+    (hg : getRa (run p ops) id = some r) (hp : r.proposer = some a)
+    (hg' : getRa (run p ops) id' = some r') (hp' : r'.proposer = some a) : id' = id :=
+  run_uniq p ops hg hp id' r' hg' hp'
+
 -- ================================================================ Part 3: the slash
 
 /-- **a rollapp with no proposer is not slashed**: `SlashLiveness` is the identity … -/
@@ -187,6 +206,30 @@ theorem update_resets_clock_and_honors (s s' : St) (m : UpdMsg) (r : Rollapp) (q
   have := updateState_nonlast hr hq hl h
   exact ⟨⟨_, this.1, rfl, rfl, rfl, this.2.2⟩, this.2.1⟩
 
+/-- every accepted update in a reachable state — also the proposer's last one, which hands the
+    rollapp over or forks it — lowers the sender's dishonor by `min(DishonorStateUpdate, dishonor)` -/
+theorem update_honors_proposer (p : Params) (ops : List Op) (m : UpdMsg) (s' : St) (q : Seq)
+    (hq : getSeq (run p ops) m.sender = some q) (h : updateState (run p ops) m = .ok s') :
+    (getSeq s' m.sender).map (·.dishonor) = some (q.dishonor - min p.dishonorSU q.dishonor) := by
+  have := updateState_honors (run_lev p ops) hq h
+  rw [run_p] at this
+  exact this
+
+/-- **… proposer change …**: a rollapp that gets a real proposer (leaving the sentinel state) starts
+    a fresh countdown at the current height with its event at the next slash height (the hand-over to
+    a successor happens inside an accepted last update and is covered by `update_resets_clock`) -/
+theorem proposer_change_resets_clock (s s' : St) (ra : Nat) (h : recoverFromSentinel s ra = .ok s') :
+    ∃ r' a, getRa s' ra = some r' ∧ r'.proposer = some a ∧ r'.cdStart = s.h ∧
+      r'.evH = nextSlashHeight s.p.lsBlocks s.p.lsInterval s.h s.h ∧ (r'.evH, ra) ∈ s'.lev :=
+  recoverFromSentinel_clock h
+
+/-- **… or fork**: a hard fork of a rollapp in a reachable state sets its countdown start to the
+    current height and leaves it without any liveness event (the next proposer change schedules one) -/
+theorem fork_resets_clock (p : Params) (ops : List Op) (ra lv : Nat) (s' : St) (h : hardFork (run p ops) ra lv = .ok s') :
+    (∃ r', getRa s' ra = some r' ∧ r'.evH = 0 ∧ r'.cdStart = (run p ops).h) ∧ ∀ hh, (hh, ra) ∉ s'.lev := by
+  have := hardFork_clock (run_lev p ops) h
+  exact ⟨this.1, this.2.1⟩
+
 /-- the event scheduled by an update at height `h` is at `h + LivenessSlashBlocks` (N ≥ 1) … -/
 theorem first_event_height (N I h : Nat) (hN : 1 ≤ N) : nextSlashHeight N I h h = h + N :=
   nextSlashHeight_fresh N I h hN
@@ -203,13 +246,14 @@ theorem event_fires_iff (p : Params) (ops : List Op) (ra : Nat) (r : Rollapp) (h
   due_iff (run_lev p ops) (run_grid p ops).hpos hg
 
 /-- a block end at a height other than the rollapp's event height does not touch its clock, event
-    or proposer, and does not slash its (exclusive) proposer -/
+    or proposer, and leaves its proposer's record (bond, dishonor, …) exactly as it was -/
 theorem end_before_event_height_does_not (p : Params) (ops : List Op) (f : List (Nat × Nat)) (ra : Nat) (r : Rollapp)
     (hg : getRa (run p ops) ra = some r) (hne : r.evH ≠ (run p ops).h) :
     (∃ r', getRa (step (run p ops) (.end_ f)).1 ra = some r' ∧ r'.evH = r.evH ∧ r'.cdStart = r.cdStart ∧
       r'.proposer = r.proposer) ∧
-    (∀ a, Uniq (run p ops) a ra → getSeq (step (run p ops) (.end_ f)).1 a = getSeq (run p ops) a) :=
-  endBlock_not_due (run_lev p ops) hg hne
+    (∀ a, r.proposer = some a → getSeq (step (run p ops) (.end_ f)).1 a = getSeq (run p ops) a) := by
+  have := endBlock_not_due (f := f) (run_lev p ops) hg hne
+  exact ⟨this.1, fun a hp => this.2 a (run_uniq p ops hg hp)⟩
 
 /-- the block end at the rollapp's event height reschedules the event to the next slash height
     computed from the current height (whatever else is due in the same block end) … -/
@@ -233,13 +277,14 @@ theorem event_rescheduled_one_interval_later (p : Params) (hI : 1 ≤ p.lsInterv
   rw [h2, ← hev, hgrid, nextSlashHeight_step _ _ _ _ hI, Nat.add_mul]
   omega
 
-/-- … and slashes the real (exclusive) proposer exactly once -/
+/-- … and slashes the real proposer exactly once: across the whole block end (finalization and all
+    liveness events of that height) its record changes by exactly one `slashOnce` -/
 theorem end_at_event_height_slashes (p : Params) (ops : List Op) (f : List (Nat × Nat)) (ra : Nat) (r : Rollapp)
     (a : Addr) (q : Seq) (hg : getRa (run p ops) ra = some r) (hev : r.evH = (run p ops).h)
-    (hp : r.proposer = some a) (hq : getSeq (run p ops) a = some q) (hu : Uniq (run p ops) a ra) :
+    (hp : r.proposer = some a) (hq : getSeq (run p ops) a = some q) :
     getSeq (step (run p ops) (.end_ f)).1 a = some (slashOnce p q) := by
   have hm := (event_fires_iff p ops ra r hg).2 hev
-  have := (endBlock_due (f := f) (run_lev p ops) (run_cust p ops) hg hm).2 a q hu hp hq
+  have := (endBlock_due (f := f) (run_lev p ops) (run_cust p ops) hg hm).2 a q (run_uniq p ops hg hp) hp hq
   rw [run_p] at this
   exact this
 
@@ -259,30 +304,32 @@ theorem idle_seq_succ (p : Params) (c H k : Nat) (q : Seq) :
     idleSeq p c H (k + 1) q = idleSeq p c (H + 1) k (idleBlock p c H q) := rfl
 
 /-- **an idle rollapp's proposer is slashed on schedule**: take any reachable state between blocks
-    in which rollapp `ra` has countdown start `c`, a real proposer `a` (record `q`, proposing for no
-    other rollapp) and its event at the next slash height; let any number of blocks pass
-    (`begin_ dt`, `end_ f` with arbitrary time steps and finalization failures) without a message.
-    Then the hub height advanced by that many blocks, the countdown start and the proposer are
-    unchanged, the event is again at the next slash height, and the proposer's record is `idleSeq`:
-    slashed (bond and dishonor, `slashOnce`) at the end of exactly the blocks whose height is a grid
-    point `c + N + j·I`, and untouched by every other block (`idle_block_on_grid/off_grid`). -/
+    in which rollapp `ra` has a real proposer `a` (record `q`) and an event scheduled; let any number
+    of blocks pass (`begin_ dt`, `end_ f` with arbitrary time steps and finalization failures)
+    without a message.  Then the hub height advanced by that many blocks, the countdown start and
+    the proposer are unchanged, the event is again at the next slash height, and the proposer's
+    record is `idleSeq`: slashed (bond and dishonor, `slashOnce`) at the end of exactly the blocks
+    whose height is a grid point `cdStart + N + j·I`, and untouched by every other block
+    (`idle_block_on_grid/off_grid`). -/
 theorem idle_slashed_on_schedule (p : Params) (hI : 1 ≤ p.lsInterval) (ops : List Op)
     (hph : ops.foldl phaseStep (some false) = some false)
     (ra : Nat) (r : Rollapp) (a : Addr) (q : Seq)
     (hg : getRa (run p ops) ra = some r) (hp : r.proposer = some a) (hq : getSeq (run p ops) a = some q)
-    (hu : Uniq (run p ops) a ra)
-    (hev : r.evH = nextSlashHeight p.lsBlocks p.lsInterval (run p ops).h r.cdStart)
-    (bs : List (Nat × List (Nat × Nat))) :
+    (hev : r.evH ≠ 0) (bs : List (Nat × List (Nat × Nat))) :
     (run p (ops ++ blockOps bs)).h = (run p ops).h + bs.length ∧
     (∃ r', getRa (run p (ops ++ blockOps bs)) ra = some r' ∧ r'.cdStart = r.cdStart ∧ r'.proposer = some a ∧
       r'.evH = nextSlashHeight p.lsBlocks p.lsInterval ((run p ops).h + bs.length) r.cdStart) ∧
     getSeq (run p (ops ++ blockOps bs)) a = some (idleSeq p r.cdStart (run p ops).h bs.length q) := by
   obtain ⟨hl, hc, hf⟩ := run_between_blocks p hI ops hph
+  have hev' : r.evH = nextSlashHeight p.lsBlocks p.lsInterval (run p ops).h r.cdStart := by
+    rcases run_exact_between p hI ops hph r (getRa_mem hg) with h1 | h1
+    · exact absurd h1 hev
+    · exact h1
   have hinv : IdleInv a ra r.cdStart q (run p ops) := by
-    refine ⟨hl, hc, hf, hu, ?_, hq⟩
+    refine ⟨hl, hc, hf, run_uniq p ops hg hp, ?_, hq⟩
     rw [hg, run_p]
     show some (r.evH, r.cdStart, r.proposer) = _
-    rw [hev, hp]
+    rw [hev', hp]
   obtain ⟨h1, h2, h3⟩ := blocks_idle bs _ _ hinv
   rw [run_append, runBlocks_eq_steps]
   rw [run_p] at h1
@@ -303,7 +350,7 @@ theorem active_never_slashed (p : Params) (ops : List Op) (f : List (Nat × Nat)
     ((run p ops).h, ra) ∉ (run p ops).lev ∧
     (∃ r', getRa (step (run p ops) (.end_ f)).1 ra = some r' ∧ r'.evH = r.evH ∧ r'.cdStart = r.cdStart ∧
       r'.proposer = r.proposer) ∧
-    (∀ a, Uniq (run p ops) a ra → getSeq (step (run p ops) (.end_ f)).1 a = getSeq (run p ops) a) := by
+    (∀ a, r.proposer = some a → getSeq (step (run p ops) (.end_ f)).1 a = getSeq (run p ops) a) := by
   have hne : r.evH ≠ (run p ops).h := (run_grid p ops).not_due hg (by rw [run_p]; exact hw)
   have := end_before_event_height_does_not p ops f ra r hg hne
   exact ⟨fun hm => hne ((event_fires_iff p ops ra r hg).1 hm), this.1, this.2⟩
